@@ -43,7 +43,7 @@ import sympy.printing
 from sympy.codegen.rewriting import ReplaceOptim, optimize
 from sympy.core.mul import _keep_coeff
 from sympy.logic.boolalg import BooleanTrue
-from sympy.printing.precedence import precedence
+from sympy.printing.precedence import PRECEDENCE, precedence
 
 
 class Printer(sympy.printing.printer.Printer):
@@ -267,6 +267,9 @@ class Printer(sympy.printing.printer.Printer):
         """
         # This method is mostly copied from sympy.printing.Str
 
+        # Operands are bracketed as operands of a product, also when only a sign is left of the coefficient
+        my_prec = PRECEDENCE['Mul']
+
         # Check overall sign of multiplication
         sign = ''
         c, e = expr.as_coeff_Mul()
@@ -314,7 +317,6 @@ class Printer(sympy.printing.printer.Printer):
         a = a or [sympy.S.One]
 
         # Convert terms to code
-        my_prec = precedence(expr)
         a_str = [self._bracket(x, my_prec) for x in a]
         b_str = [self._bracket(x, my_prec) for x in b]
 
